@@ -7,6 +7,17 @@ namespace rkcommon {
     inline size_t align_ptr_ul(size_t p, size_t a) { return ALIGN_PTR(p, a); }
     inline size_t align_ptr_i(size_t p, int a) { return ALIGN_PTR(p, a); }
     inline bool use(void *p, int a) { return memory::isAligned(p, a) && memory::isAligned(p); }
+    // the typed overload alignedMalloc<T>(nElements, align), sizeof(T) = 4 and 8
+    inline float *use_typed_f(size_t n, size_t a) { return memory::alignedMalloc<float>(n, a); }
+    inline double *use_typed_d(size_t n, size_t a) { return memory::alignedMalloc<double>(n, a); }
+    // construct / destroy for a class type with user-provided copy constructor and destructor
+    struct Obj { Obj(const Obj &); ~Obj(); int x; };
+    inline void use_construct_destroy(Obj *p, const Obj &t)
+    {
+      containers::aligned_allocator<Obj, 64> a;
+      a.construct(p, t);
+      a.destroy(p);
+    }
   }
   // sizeof(T) of a scalar T is a constant the translator knows: 1, 2, 4, 8
   template struct containers::aligned_allocator<unsigned char, 64>;
